@@ -171,6 +171,21 @@ def Df(cols, index=None):
     return ["DataFrame", [[n, list(v), dt] for n, v, dt in cols], index]
 
 
+def _index(index, n):
+    """index descriptor -> pandas index argument: None (default RangeIndex), a list of leaf names, or ['@range', start, step]"""
+    if index is None:
+        return None
+    if index and index[0] == "@range":
+        return pd.RangeIndex(index[1], index[1] + index[2] * n, index[2])
+    return [LEAVES[c] for c in index]
+
+
+def _index_src(index, n):
+    if index and index[0] == "@range":
+        return f"pd.RangeIndex({index[1]}, {index[1] + index[2] * n}, {index[2]})"
+    return "[" + ", ".join(render(lf(c)) for c in index) + "]"
+
+
 def dkey(d):
     return json.dumps(d, separators=(",", ":"))
 
@@ -257,12 +272,11 @@ def build(d):  # noqa: C901, PLR0911, PLR0912
         return np.ma.array([LEAVES[c] for c in d[2]], mask=[bool(b) for b in d[3]], dtype=d[1])
     if t == "Series":
         _, values, dtype, index, name = d
-        return pd.Series([LEAVES[c] for c in values], index=None if index is None else [LEAVES[c] for c in index],
-                         name=name, dtype=dtype)
+        return pd.Series([LEAVES[c] for c in values], index=_index(index, len(values)), name=name, dtype=dtype)
     if t == "DataFrame":
         _, cols, index = d
         data = {n: np.array([LEAVES[c] for c in v], dtype=dt) for n, v, dt in cols}
-        return pd.DataFrame(data, index=None if index is None else [LEAVES[c] for c in index])
+        return pd.DataFrame(data, index=_index(index, len(cols[0][1]) if cols else 0))
     if t in USER:
         return USER[t](build(d[1]))
     raise ValueError(t)
@@ -307,7 +321,7 @@ def render(d):  # noqa: C901, PLR0911, PLR0912
         _, values, dtype, index, name = d
         s = f"pd.Series([{', '.join(render(lf(c)) for c in values)}], dtype={dtype!r}"
         if index is not None:
-            s += f", index=[{', '.join(render(lf(c)) for c in index)}]"
+            s += f", index={_index_src(index, len(values))}"
         if name is not None:
             s += f", name={name!r}"
         return s + ")"
@@ -316,7 +330,7 @@ def render(d):  # noqa: C901, PLR0911, PLR0912
         s = "pd.DataFrame({" + ", ".join(f"{n!r}: np.array([{', '.join(render(lf(c)) for c in v)}], dtype={dt!r})"
                                           for n, v, dt in cols) + "}"
         if index is not None:
-            s += f", index=[{', '.join(render(lf(c)) for c in index)}]"
+            s += f", index={_index_src(index, len(cols[0][1]) if cols else 0)}"
         return s + ")"
     if t in USER:
         return f"{t}({render(d[1])})"
@@ -375,14 +389,15 @@ def _level1():
     svals = [(("0", "1"), "int64"), (("1", "0"), "int64"), (("1", "1"), "int64"), (("0", "1"), "float64"),
              (("1.5", "0"), "float64"), (("'a'", "''"), "object"), (("1", "'a'"), "object")]
     for vals, dt in svals:
-        for index in (None, ["1", "0"], ["'a'", "''"], ["0", "0"]):
+        for index in (None, ["1", "0"], ["'a'", "''"], ["0", "0"], ["@range", 1, 1], ["@range", 0, 2]):
             for name in (None, "a"):
                 out.append(Se(vals, dt, index, name))
     dcols = [[("a", ("0", "1"), "int64")], [("a", ("1", "0"), "int64")],
              [("a", ("0", "1"), "int64"), ("b", ("0", "1"), "int64")], [("b", ("0", "1"), "int64"), ("a", ("0", "1"), "int64")],
              [("a", ("0", "1"), "float64")], [("a", ("'a'", "''"), "object")], [("b", ("0", "1"), "int64")]]
     for cols in dcols:
-        for index in (None, ["1", "0"], ["'a'", "''"]):
+        # ['@range', start, step]: a RangeIndex that is NOT the default one (a slice of a bigger frame): same type, same length
+        for index in (None, ["1", "0"], ["'a'", "''"], ["@range", 1, 1], ["@range", 0, 2], ["@range", 2, -1]):
             out.append(Df(cols, index))
     for cls in USER:
         out += [[cls, x] for x in leaves]
